@@ -425,7 +425,7 @@ def run(tier: str) -> Check:
     o7b_unroll_concrete(check, repo)
     sem_ok = len(check.findings) == before and not getattr(check, "deferred", [])
     o10_truthy(check, repo, rep)
-    o2_order(check, repo, tier)
+    check.second_opinion(lambda c: o2_order(c, repo, tier), "O12 on the program model", sem_ok)
     # ---- structural readings of the same passes (contradiction / registration / purity / shape rules): second
     # opinions - reported when the semantic rules fail too, notes when the passes are right but written differently
     for fn_ in (o1_unchecked, o3_trivia, o4_purity, o5_inplace, o7_unroll, o8_inliners, o9_skip_rule, o13_fold_flags):
